@@ -1,6 +1,7 @@
 import ErbiumModel.Model.DnsRelay
 import ErbiumModel.Lemmas.DnsMessage
 import ErbiumModel.Lemmas.DnsTruncated
+import ErbiumModel.Lemmas.DnsReply
 /-! # C03 — DNS answers relayed to clients are faithful to what the upstream server said -/
 namespace Erbium.Props.C03
 open Erbium Erbium.DnsWire Erbium.DnsRelay
@@ -85,6 +86,49 @@ theorem C03_every_reply_faithful (q r : Pkt) (ip ck : Bytes) (size : Nat) (hs : 
     · rw [f8]; exact List.prefix_refl _
     · rw [f9]; exact List.prefix_refl _
   · refine ⟨_, message_roundtrip _ (truncated_wf hw ka kn kd) size wire hc hsz, f1, f2, f4, f3, ?_, ?_, ?_, ?_, ?_⟩
+    · show (createInReply q r ip ck).rcode % 16 % 16 = r.rcode % 16
+      rw [f6, Nat.mod_mod]
+    · show (createInReply q r ip ck).answer.take ka <+: r.answer
+      rw [f7]; exact List.take_prefix _ _
+    · show (createInReply q r ip ck).nameserver.take kn <+: r.nameserver
+      rw [f8]; exact List.take_prefix _ _
+    · show (createInReply q r ip ck).additional.take kd <+: r.additional
+      rw [f9]; exact List.take_prefix _ _
+    · intro htc; exact absurd htc (by show ¬ (true = false); decide)
+
+/-- **C03 (end to end, octets to octets).** Let `bq` and `br` be any strings of octets that the decoder accepts as the
+    client's query `q` and the upstream's reply `r` (`r` with fewer than 65535 additional records — it arrived in at
+    most 65535 octets), and let the receiving address as text and the server cookie be of any length a 16-bit option
+    length can carry. Whatever the serialiser returns for `create_in_reply(q, r)` at any limit ≥ 512, within 65535
+    octets, the client decodes: its own id and question, a response, the upstream's low rcode bits, and three
+    sections that are prefixes of the upstream's — nothing invented, altered, reordered or moved; records missing
+    only from the end and only with TC set; without TC, exactly the assembled reply (as sent: EDNS version 0).
+    No well-formedness hypothesis remains: it is proved for everything the decoder returns. -/
+theorem C03_end_to_end (bq br : Bytes) (hbq : Octets bq) (hbr : Octets br) (q r : Pkt)
+    (hq : parse bq = .ok q) (hr : parse br = .ok r) (had : r.additional.length + 1 < 65536)
+    (ip ck : Bytes) (hip : ip.length < 65536) (hck : ck.length + 8 < 65536)
+    (size : Nat) (hs : 512 ≤ size) (wire : Bytes)
+    (h : serialiseWithSize (createInReply q r ip ck) size = some wire) (hsz : wire.length < 65536) :
+    ∃ c, parse wire = .ok c ∧ c.qid = q.qid ∧ c.qdomain = q.qdomain ∧ c.qtype = q.qtype ∧ c.qclass = q.qclass ∧
+      c.qr = true ∧ c.rcode % 16 = r.rcode % 16 ∧
+      c.answer <+: r.answer ∧ c.nameserver <+: r.nameserver ∧ c.additional <+: r.additional ∧
+      (c.tc = false → c = asSent (createInReply q r ip ck)) := by
+  have hwq := (parse_wf hbq hq).1
+  have hwr := (parse_wf hbr hr).1
+  have hw := createInReply_wf hwq hwr had ip ck hip hck
+  have h' : serialiseWithSize (asSent (createInReply q r ip ck)) size = some wire := by rw [serialise_asSent]; exact h
+  have hf := C03_relay_faithful q r ip ck
+  simp only at hf
+  obtain ⟨f1, f2, f3, f4, f5, f6, f7, f8, f9⟩ := hf
+  rcases serialise_cases _ hw size hs wire h' with hc | ⟨ka, kn, kd, _, hc⟩
+  · refine ⟨_, message_roundtrip _ hw size wire hc hsz, f1, f2, f4, f3, f5, by rw [← f6]; rfl, ?_, ?_, ?_, fun _ => rfl⟩
+    · show (createInReply q r ip ck).answer <+: r.answer
+      rw [f7]; exact List.prefix_refl _
+    · show (createInReply q r ip ck).nameserver <+: r.nameserver
+      rw [f8]; exact List.prefix_refl _
+    · show (createInReply q r ip ck).additional <+: r.additional
+      rw [f9]; exact List.prefix_refl _
+  · refine ⟨_, message_roundtrip _ (truncated_wf hw ka kn kd) size wire hc hsz, f1, f2, f4, f3, f5, ?_, ?_, ?_, ?_, ?_⟩
     · show (createInReply q r ip ck).rcode % 16 % 16 = r.rcode % 16
       rw [f6, Nat.mod_mod]
     · show (createInReply q r ip ck).answer.take ka <+: r.answer
